@@ -248,3 +248,7 @@ CHECKS['C14']['text'] += (
 CHECKS['C16']['text'] += (
     " T2 run_until_split_eq (Coq, Inv/Horizon.v): over the ENGINE MODEL (stage 1) a call of the loop to T1 followed by a call to T >= T1 on the remaining draws IS the call to T, "
     "for every configuration, state and oracle.")
+CHECKS['C06']['text'] += (
+    " T2, second sentence (Coq, Inv/Admit.v, function level): rejected_iff_full / release_individual_admission - in the engine model an external arrival gets a rejection record (type 4, "
+    "showing the population seen) and goes to the exit at once if and only if its node or the system is full at that instant; otherwise it baulks by its own decision (u < p for the population seen) "
+    "or is counted as accepted and handed to the node's accept.")
